@@ -330,6 +330,38 @@ def rule_r4(ck, prog, f, rule='C02.R4', child_names=FLUSH_NAMES):
     return cnt
 
 
+FANOUT_NAMES = ('ForceFlush', 'Shutdown')
+
+
+def rule_r10(ck, prog, rule='C02.R10', prefix='opentelemetry::sdk::'):
+    """FANOUT: a layer that forwards ForceFlush/Shutdown to a list of children visits every child: each iteration of the loop
+    makes the child call (no short-circuit, no condition, no continue in front of it) and the loop is not left early."""
+    from .common import loop_visits_every_element
+    cnt = 0
+    for f in sorted(prog.funcs.values(), key=lambda x: x.qn):
+        if f.name not in FANOUT_NAMES or not f.cls or not f.cls.startswith(prefix) or f.d.get('lambda'):
+            continue
+        loops = [n for n in f.nodes if n['k'] in ('forrange', 'while', 'for')]
+        if not loops:
+            continue
+        g = None
+        for lp in loops:
+            body = set(f.subtree(lp['body']))
+            calls = [n for i in body for n in [f.nodes[i]] if n['k'] == 'call' and strip_targs(n.get('c', '') or '').rsplit('::', 1)[-1] == f.name
+                     and n.get('obj') is not None]
+            if not calls:
+                continue
+            if g is None:
+                g = Graph(prog, f, inline=None, sync_lambdas=False)
+            pts = [p for p in g.points if p.f is f and p.ctx is g.root_ctx and any(p.n is c for c in calls)]
+            why = loop_visits_every_element(g, f, lp, pts)
+            cnt += 1
+            site = 'fanout:%s::%s' % (strip_targs(f.cls).rsplit('::', 1)[-1], f.name)
+            ck.verdict(why is None, rule, f, site, calls[0], 'every child gets %s in every iteration; the loop runs to the end of the list' % f.name if why is None else
+                       '%s — a child that comes later in the list is never %s' % (why, 'flushed' if f.name == 'ForceFlush' else 'shut down: its exporter keeps its queue and is never shut down'))
+    return cnt
+
+
 def _rmw_guard_edge(g, rd, first_caller=True):
     """edge predicate: branch condition originates from an atomic exchange(true)/test_and_set() and the
     edge is the one taken by the caller that found the latch clear"""
@@ -514,9 +546,12 @@ def run(ck, prog):
     ck.doc('C02.R7', 'batch OnEnd/OnEmit/ForceFlush: shutdown gate dominates every effectful event', 4)
     ck.doc('C02.R8', 'every condition-variable wait in these classes is timed', 5)
     ck.doc('C02.R9', 'after the exporter flush the ticket publication follows on every path (necessary for termination)', 2)
+    ck.doc('C02.R10', 'ForceFlush/Shutdown fan-out: every child is visited in every iteration, the loop is not left early', 6)
     cg = CallGraph(prog)
 
     # ---- canaries
+    with ck.canary('C02.R10'):
+        rule_r10(ck, prog, prefix='canary::c02::')
     cb = Roles(prog, 'canary::c02::BadBatch', cg=cg)
     with ck.canary('C02.R1'):
         rule_r1_r2(ck, prog, cg, cb)
@@ -558,6 +593,7 @@ def run(ck, prog):
     rule_r5(ck, prog, 'sdk::logs::SimpleLogRecordProcessor')
     rule_r5(ck, prog, 'sdk::metrics::MeterContext', target=('MetricCollector::Shutdown', 'MetricReader::Shutdown'),
             target_desc='collector Shutdown')
+    rule_r10(ck, prog)
     layers = flush_layers(prog)
     n = 0
     for f in sorted(layers, key=lambda x: x.qn):
